@@ -169,7 +169,11 @@ func (cx *Connection) prefetch() (err error) {
 
 		cx.bytesRead.Add(uint64(n))
 
-		if err != nil {
+		// Bytes that came with an error are processed first (io.Reader contract):
+		// a TLS 1.2 connection reports the peer's close_notify together with the
+		// last record, and those bytes may be all a matcher needs. The error comes
+		// back on the next read.
+		if err != nil && n == 0 {
 			return err
 		}
 
